@@ -270,7 +270,9 @@ def evaluate_z3_seq_in_re(
 
     return Some(
         construct_result(
-            lambda args: re.match(f"^{args[1]}$", args[0]) is not None,
+            # Match the whole string (`$` would also match before a trailing newline);
+            # `.` (from re.all) has to match newlines, too.
+            lambda args: re.fullmatch(args[1], args[0], flags=re.DOTALL) is not None,
             children_results,
         )
     )
